@@ -46,10 +46,7 @@ def run(ctx):
             and A.dominates(fn, ws[0], we[0])
         ctx.ob("R-C03.1", fn, "start-items-end-order", order, "Start precedes every item write, End follows all of them" if order else "an item can be written outside the Start..End frame")
         # every success path passes write_end
-        errs = []
-        for b, t in fn.calls():
-            if "Result<" in fn.local_ty(t["dest"]["l"]) or "ControlFlow" in fn.local_ty(t["dest"]["l"]):
-                errs.extend(A.result_flow(fn, b).err_blocks)
+        errs = list(A.error_starts(fn))
         r = A.reach_after(fn, ws[0], avoid=we + errs)
         esc = [x for x in fn.return_blocks() if x in r]
         ctx.ob("R-C03.1", fn, "end-on-every-success-path", not esc, "after write_start every success path writes the End marker" if not esc else "a success path returns after Start without writing End")
